@@ -71,6 +71,10 @@ pub struct Scenario {
     /// C26: the component under test and the plan applied through both iterator kinds
     #[serde(default)]
     pub comp: Option<crate::c26::CompPlan>,
+    /// C04: number of fresh OS processes of the *unhooked* build (shipped code, std `RandomState`)
+    /// whose output must equal the hooked seed-0 output; 0 = in-process hash seeds only
+    #[serde(default)]
+    pub xproc: u32,
 }
 
 /// The positions a module iterator must visit: every instruction of every local function not
@@ -1033,7 +1037,7 @@ pub fn run(sc: &Scenario) -> RunResult {
 
 pub fn run_bytes(sc: &Scenario, base_bytes: &[u8]) -> RunResult {
     LOGS.with(|l| l.borrow_mut().clear());
-    wirm::verif::set_hash_seed(sc.hash_seed);
+    crate::hseam::set_hash_seed(sc.hash_seed);
     let flat = sc.flat_ops();
     let mut arena = vec![];
     let mut ranges = vec![];
@@ -1178,7 +1182,7 @@ pub fn run_bytes(sc: &Scenario, base_bytes: &[u8]) -> RunResult {
             }
         }
     }
-    res.hash_maps = wirm::verif::hash_maps_created();
+    res.hash_maps = crate::hseam::hash_maps_created();
     res.logs = LOGS.with(|l| l.borrow().clone());
     res.model = model;
     res
